@@ -23,6 +23,8 @@ case "$prop" in
   C20) pkg=dv_http; bin=dv_http ;;
   *)   pkg=dv_check; bin=dv_check ;;
 esac
+# source-derived dictionary of literals for the generators (a pure function of /repo's working tree)
+python3 tools/mkdict.py /repo work/dict.json 2>/dev/null || true
 log="work/log/build.$prop.$$.log"
 # thorough runs of the properties that use generated derive inputs go over several program sets
 rounds=1
